@@ -17,9 +17,11 @@ const (
 	kRecvLate      = "defer-receiver-evaluated-late"
 	kBuiltinPanic  = "defer-builtin-panic-runs-immediately"
 	kReflectValue  = "recovered-value-is-reflect-value"
+	kForeignFunc   = "recover-in-deferred-func-value-of-another-frame"
+	kStaleResult   = "recovered-call-yields-stale-result"
 )
 
-var allKeys = []string{kDeferredPanic, kFuncVal, kLoopLit, kArgsAliased, kRecvLate, kBuiltinPanic, kReflectValue}
+var allKeys = []string{kDeferredPanic, kFuncVal, kLoopLit, kArgsAliased, kRecvLate, kBuiltinPanic, kReflectValue, kForeignFunc, kStaleResult}
 
 // Prog is a generated program: Fns[0] is main, the others form a call tree
 // (a function only calls functions one level deeper, depth <= 5).
@@ -47,6 +49,8 @@ const (
 	sCall  = "call"
 	sRaise = "raise"
 	sVia   = "via"
+	sRecur = "recur" // call of the recursive prelude function (a defer in every frame)
+	sIIFE  = "iife"  // function literal called at once, with a defer and a raise of its own
 )
 
 // Defer forms.
@@ -70,6 +74,7 @@ const (
 	fBPanic     = "builtin-panic"   // defer panic(v)
 	fCloseTwice = "builtin-reclose" // defer close(c) on a closed channel: the deferred builtin faults
 	fBRecover   = "builtin-recover" // defer recover(): no-op
+	fNilFunc    = "nil-funcval"     // var h func(); defer h(): faults when the deferred call runs
 	fLoop       = "loop"
 )
 
@@ -89,6 +94,7 @@ const (
 	aVar   = "var"   // local variable
 	aVarM  = "var-m" // local variable modified after the defer statement
 	aConst = "const"
+	aBoom  = "panics" // the argument expression panics: the call is never deferred
 )
 
 // Recover placements of a deferred body.
@@ -148,6 +154,7 @@ type Stmt struct {
 	LoopN    int
 	MutAfter string // "", "field" (t.n += ..), "value" (tv.n += ..), "rebind" (t = &T{..})
 	Val      string // panic value kind of defer panic(v)
+	Cond     int    // defer statement executed only when d == Cond (-1: always)
 	// call
 	Callee  int
 	CallArg int
@@ -156,6 +163,8 @@ type Stmt struct {
 	// raise / via
 	Raise   *Raise
 	ViaMode int // 0 none, 1 explicit panic, 2 fault inside deferVia
+	// recur: depth and the level that recovers (> depth: nobody)
+	RecurN, RecurStop int
 }
 
 type gen struct {
@@ -164,10 +173,10 @@ type gen struct {
 	p   *Prog
 }
 
-func (g *gen) feat(s string)        { g.p.Features[s] = true }
-func (g *gen) excl(s string)        { g.p.Excluded[s]++ }
+func (g *gen) feat(s string)            { g.p.Features[s] = true }
+func (g *gen) excl(s string)            { g.p.Excluded[s]++ }
 func (g *gen) intn(n int, l string) int { return rapid.IntRange(0, n-1).Draw(g.t, l) }
-func (g *gen) flip(l string) bool   { return rapid.Bool().Draw(g.t, l) }
+func (g *gen) flip(l string) bool       { return rapid.Bool().Draw(g.t, l) }
 
 // pick draws an index with the given weights (simplest alternative first).
 func (g *gen) pick(label string, weights ...int) int {
@@ -261,16 +270,19 @@ func (g *gen) genFn(fn *Fn) {
 	defersSoFar := 0
 	stopped := false
 	for s := 0; s < n && !stopped; s++ {
-		st := &Stmt{N: len(fn.Stmts), Callee: -1}
+		st := &Stmt{N: len(fn.Stmts), Callee: -1, Cond: -1}
 		wCall := 0
 		if len(callable) > 0 {
 			wCall = 3
 		}
-		switch g.pick("stmt-kind", 10, wCall, 2, 2) {
+		switch g.pick("stmt-kind", 10, wCall, 2, 2, 1, 2) {
 		case 0:
 			st.Kind = sDefer
 			g.genDefer(fn, st, defersSoFar == 0)
 			defersSoFar++
+			if st.Arg == aBoom && st.Cond < 0 {
+				stopped = true
+			}
 		case 1:
 			g.genCall(fn, st, callable)
 		case 2:
@@ -283,8 +295,37 @@ func (g *gen) genFn(fn *Fn) {
 		case 3:
 			st.Kind = sVia
 			st.Body = g.genBody(fn, true, true)
+			if g.off[kForeignFunc] && (st.Body.Rec == rDirect || st.Body.Rec == rDirectArg) {
+				// recover in a function value that is deferred by another function
+				g.excl(kForeignFunc)
+				st.Body.Rec = rNone
+				if st.Body.ModRes == 2 {
+					st.Body.ModRes = 1
+				}
+				if st.Body.Act == actReSame || st.Body.Act == actReNew {
+					st.Body.Act = actNone
+				}
+			}
 			st.ViaMode = g.pick("via-mode", 1, 2, 2)
 			if st.ViaMode != 0 || g.hot(st.Body) {
+				fn.mayPanic = true
+			}
+		case 4:
+			st.Kind = sRecur
+			st.RecurN = rapid.IntRange(1, 3).Draw(g.t, "recur-n")
+			st.RecurStop = rapid.IntRange(0, st.RecurN+1).Draw(g.t, "recur-stop")
+			if st.RecurStop > st.RecurN {
+				fn.mayPanic = true
+			}
+		case 5:
+			st.Kind = sIIFE
+			st.Body = g.genBody(fn, true, true)
+			if g.pick("iife-raise", 1, 3) == 1 {
+				st.Raise = g.genRaise(fn.ID != 0)
+			}
+			inner := st.Raise != nil
+			caught := (st.Body.Rec == rDirect || st.Body.Rec == rDirectArg) && !g.hot(st.Body)
+			if g.hot(st.Body) || (inner && !caught) {
 				fn.mayPanic = true
 			}
 		}
@@ -303,7 +344,7 @@ func (g *gen) genFn(fn *Fn) {
 			}
 		}
 		pos := rapid.IntRange(0, limit).Draw(g.t, "call-pos")
-		st := &Stmt{Callee: -1}
+		st := &Stmt{Callee: -1, Cond: -1}
 		g.genCall(fn, st, []int{c})
 		fn.Stmts = append(fn.Stmts, nil)
 		copy(fn.Stmts[pos+1:], fn.Stmts[pos:])
@@ -311,6 +352,11 @@ func (g *gen) genFn(fn *Fn) {
 	}
 	for i, st := range fn.Stmts {
 		st.N = i
+	}
+	if fn.ID != 0 && !fn.Named && g.off[kStaleResult] && canRecover(fn) {
+		// a function without named results that recovers returns zero values
+		g.excl(kStaleResult)
+		fn.Named = true
 	}
 }
 
@@ -341,6 +387,38 @@ func (g *gen) genCall(fn *Fn, st *Stmt, callable []int) {
 	if g.p.Fns[st.Callee].mayPanic {
 		fn.mayPanic = true
 	}
+}
+
+// reSame is a re-panic with the recovered value (excluded while recovered
+// values are reflect.Values: panic(r) wraps the value once more).
+func (g *gen) reSame() string {
+	if g.off[kReflectValue] {
+		g.excl(kReflectValue)
+		return actReNew
+	}
+	return actReSame
+}
+
+// canRecover: the function has a recover site that can be effective for a
+// panic of its own frame.
+func canRecover(fn *Fn) bool {
+	for _, st := range fn.Stmts {
+		if st.Kind != sDefer {
+			continue
+		}
+		switch st.Form {
+		case fNamedRec, fMRec, fFuncTopRec:
+			return true
+		case fLoop:
+			if st.Loop == lRec {
+				return true
+			}
+		}
+		if st.Body != nil && (st.Body.Rec == rDirect || st.Body.Rec == rDirectArg) {
+			return true
+		}
+	}
+	return false
 }
 
 // hot: the deferred function may end in a panic of its own (raise, re-panic
@@ -386,7 +464,7 @@ func (g *gen) genBody(fn *Fn, canPanic, top bool) *Body {
 			if g.flip("nested-re-new") {
 				b.Act = actReNew
 			} else {
-				b.Act = actReSame
+				b.Act = g.reSame()
 			}
 		}
 		return b
@@ -412,7 +490,7 @@ func (g *gen) genBody(fn *Fn, canPanic, top bool) *Body {
 			b.Act = actRaise
 			b.Raise = g.genRaise(false)
 		case 2:
-			b.Act = actReSame
+			b.Act = g.reSame()
 		case 3:
 			b.Act = actReNew
 		}
@@ -429,7 +507,9 @@ func (g *gen) genBody(fn *Fn, canPanic, top bool) *Body {
 }
 
 func (g *gen) genArg(label string) string {
-	switch g.pick(label, 3, 2, 2, 1) {
+	switch g.pick(label, 6, 4, 4, 2, 1) {
+	case 4:
+		return aBoom
 	case 0:
 		return aNext
 	case 1:
@@ -448,8 +528,8 @@ func (g *gen) genDefer(fn *Fn, st *Stmt, first bool) {
 	// under the known finding "a panicking deferred call skips the pending
 	// defers of its frame" only the first registered defer (run last) may panic
 	canPanic := first || !g.off[kDeferredPanic]
-	forms := []string{fLit, fLitArg, fNamed, fBin, fNamedRec, fNamedDeep, fMPtr, fMVal, fMRec, fFuncVal, fFuncValArg, fFuncTop, fFuncTopRec, fClose, fDelete, fCopy, fBPanic, fCloseTwice, fBRecover, fLoop}
-	weights := []int{8, 3, 3, 2, 3, 2, 2, 2, 2, 3, 2, 2, 1, 2, 2, 2, 2, 1, 1, 5}
+	forms := []string{fLit, fLitArg, fNamed, fBin, fNamedRec, fNamedDeep, fMPtr, fMVal, fMRec, fFuncVal, fFuncValArg, fFuncTop, fFuncTopRec, fClose, fDelete, fCopy, fBPanic, fCloseTwice, fBRecover, fLoop, fNilFunc}
+	weights := []int{8, 3, 3, 2, 3, 2, 2, 2, 2, 3, 2, 2, 1, 2, 2, 2, 2, 1, 1, 5, 1}
 	st.Form = forms[g.pick("defer-form", weights...)]
 	// exclusions
 	switch st.Form {
@@ -474,6 +554,11 @@ func (g *gen) genDefer(fn *Fn, st *Stmt, first bool) {
 		if !canPanic {
 			g.excl(kDeferredPanic)
 			st.Form = fClose
+		}
+	case fNilFunc:
+		if !canPanic {
+			g.excl(kDeferredPanic)
+			st.Form = fLit
 		}
 	}
 	switch st.Form {
@@ -520,8 +605,12 @@ func (g *gen) genDefer(fn *Fn, st *Stmt, first bool) {
 			st.Loop = lNamedI
 		}
 	}
-	if st.Form == fBPanic || st.Form == fCloseTwice || g.hot(st.Body) {
+	if st.Form == fBPanic || st.Form == fCloseTwice || st.Form == fNilFunc || st.Arg == aBoom || g.hot(st.Body) {
 		fn.mayPanic = true
+	}
+	if fn.ID != 0 && g.pick("defer-cond", 5, 1) == 1 {
+		st.Cond = g.intn(3, "defer-cond-d")
+		g.feat("defer-conditional")
 	}
 	g.noteDefer(st)
 }
@@ -594,6 +683,18 @@ func (p *Prog) collectFeatures() {
 			case sVia:
 				f["defer:funcval-param"] = true
 				body(st.Body, false)
+			case sRecur:
+				f["recursion-with-defers"] = true
+				f["raise:string"] = true
+				if st.RecurStop <= st.RecurN {
+					f["recover:direct"] = true
+				}
+			case sIIFE:
+				f["defer-in-called-literal"] = true
+				if st.Raise != nil {
+					f["raise:"+st.Raise.Kind] = true
+				}
+				body(st.Body, false)
 			case sCall:
 				if st.CallN > 0 {
 					f["call-in-loop"] = true
@@ -609,6 +710,9 @@ func (p *Prog) collectFeatures() {
 					f["panic-in-deferred-function"] = true
 				case fCloseTwice:
 					f["raise:close-closed"] = true
+					f["panic-in-deferred-function"] = true
+				case fNilFunc:
+					f["raise:nil-deref"] = true
 					f["panic-in-deferred-function"] = true
 				case fLoop:
 					if st.Loop == lRec {
@@ -722,6 +826,13 @@ func (w *walker) fn(fn *Fn, d int) {
 	for _, st := range fn.Stmts {
 		switch st.Kind {
 		case sDefer:
+			if st.Cond >= 0 && st.Cond != d {
+				continue
+			}
+			if st.Arg == aBoom {
+				w.hit()
+				return
+			}
 			n := 1
 			if st.Form == fLoop {
 				n = st.LoopN
@@ -747,6 +858,29 @@ func (w *walker) fn(fn *Fn, d int) {
 			if w.raise(st.Raise, d) {
 				return
 			}
+		case sRecur:
+			for i := 0; i <= st.RecurN; i++ {
+				fi := &frameInfo{defers: 1}
+				if st.RecurN-i == st.RecurStop {
+					fi.sites = 1
+				}
+				w.stack = append(w.stack, fi)
+			}
+			w.hit()
+			w.stack = w.stack[:len(w.stack)-st.RecurN-1]
+			return
+		case sIIFE:
+			in := &frameInfo{defers: 1, sites: bodySites(st.Body)}
+			w.stack = append(w.stack, in)
+			if st.Raise != nil && w.raise(st.Raise, d) {
+				w.stack = w.stack[:len(w.stack)-1]
+				return
+			}
+			w.body(st.Body)
+			w.stack = w.stack[:len(w.stack)-1]
+			if w.found {
+				return
+			}
 		case sVia:
 			via := &frameInfo{defers: 1, sites: bodySites(st.Body)}
 			w.stack = append(w.stack, via)
@@ -770,7 +904,7 @@ func (w *walker) fn(fn *Fn, d int) {
 			fr.sites = 0
 		}
 		switch {
-		case st.Form == fBPanic || st.Form == fCloseTwice:
+		case st.Form == fBPanic || st.Form == fCloseTwice || st.Form == fNilFunc:
 			w.hit()
 			return
 		case st.Body != nil:
